@@ -27,7 +27,10 @@ type ufsFid struct {
 	// Treads pipelined on one fid are served by concurrent goroutines; a
 	// directory read closes, reopens and re-lists the directory, so only
 	// one of them at a time may use the fid's file and listing.
-	dirlock    sync.Mutex
+	dirlock sync.Mutex
+	// A walk in place moves the fid while other requests pipelined on it
+	// are being served: they read path with where().
+	pathlock   sync.RWMutex
 	path       string
 	file       *os.File
 	dirs       []os.FileInfo
@@ -67,10 +70,24 @@ func isChar(d os.FileInfo) bool {
 	return (stat.Mode & syscall.S_IFMT) == syscall.S_IFCHR
 }
 
+// where returns the path the fid designates.
+func (fid *ufsFid) where() string {
+	fid.pathlock.RLock()
+	defer fid.pathlock.RUnlock()
+	return fid.path
+}
+
+// move makes the fid designate p.
+func (fid *ufsFid) move(p string) {
+	fid.pathlock.Lock()
+	fid.path = p
+	fid.pathlock.Unlock()
+}
+
 func (fid *ufsFid) stat() *Error {
 	// keep the last good value on failure: requests pipelined on one fid
 	// may be looking at it
-	st, err := os.Lstat(fid.path)
+	st, err := os.Lstat(fid.where())
 	if err != nil {
 		return toError(err)
 	}
@@ -329,7 +346,8 @@ func (ufs *Ufs) Walk(req *SrvReq) {
 
 	// any number of walks may start from one fid at the same time:
 	// check that the file is there without storing into the shared fid
-	if _, e := os.Lstat(fid.path); e != nil {
+	path := fid.where()
+	if _, e := os.Lstat(path); e != nil {
 		req.RespondError(toError(e))
 		return
 	}
@@ -344,7 +362,6 @@ func (ufs *Ufs) Walk(req *SrvReq) {
 		return
 	}
 	wqids := make([]Qid, len(tc.Wname))
-	path := fid.path
 	i := 0
 	for ; i < len(tc.Wname); i++ {
 		// an element names one directory entry; ".." at the root is the root
@@ -369,7 +386,7 @@ func (ufs *Ufs) Walk(req *SrvReq) {
 	// Only a complete walk moves the new fid (which may be the fid itself);
 	// after a partial walk both fids are left as they were.
 	if i == len(tc.Wname) {
-		nfid.path = path
+		nfid.move(path)
 	}
 	req.RespondRwalk(wqids[0:i])
 }
@@ -655,7 +672,7 @@ func (*Ufs) Stat(req *SrvReq) {
 	}
 	// look at the fid once: a walk in place pipelined on the same fid may
 	// move it meanwhile, and name and metadata must be those of one file
-	path := fid.path
+	path := fid.where()
 	fi, e := os.Lstat(path)
 	if e != nil {
 		req.RespondError(toError(e))
